@@ -37,7 +37,7 @@ fn exec_steps(u: &mut Unstructured, depth: u32) -> Result<Vec<ExecStep>> {
     let n = u.int_in_range(0..=3usize)?;
     let mut v = vec![];
     for _ in 0..n {
-        let hi = if depth > 0 { 10 } else { 9 };
+        let hi = if depth > 0 { 11 } else { 10 };
         v.push(match u.int_in_range(0..=hi as u8)? {
             0 => {
                 let k = u.int_in_range(1..=3usize)?;
@@ -52,6 +52,7 @@ fn exec_steps(u: &mut Unstructured, depth: u32) -> Result<Vec<ExecStep>> {
             7 => ExecStep::LazyRemove(u.int_in_range(0..=7)?, sel(u)?),
             8 => ExecStep::CreateNowWith(u.int_in_range(0..=7)?, u.int_in_range(1..=999)?),
             9 => ExecStep::OtherWorld,
+            10 => ExecStep::LazyCreateWith(u.int_in_range(0..=7)?, u.int_in_range(1..=999)?),
             _ => ExecStep::Nested(exec_steps(u, depth - 1)?),
         });
     }
@@ -61,8 +62,10 @@ fn exec_steps(u: &mut Unstructured, depth: u32) -> Result<Vec<ExecStep>> {
 fn op(u: &mut Unstructured) -> Result<Op> {
     let s = |u: &mut Unstructured| u.int_in_range(0..=7u8);
     let p = |u: &mut Unstructured| u.int_in_range(1..=999u32);
-    Ok(match u.int_in_range(0..=22u8)? {
+    Ok(match u.int_in_range(0..=24u8)? {
+        24 => Op::Retrieve(u.arbitrary()?),
         22 => Op::Deserialize(u.int_in_range(0..=3)?),
+        23 => Op::SetEmission(u.int_in_range(0..=7)?, u.arbitrary()?),
         0 => Op::CreateNow { comps: comps(u)?, built: u.int_in_range(0..=7u8)? != 0 },
         1 => Op::CreateIterNow(u.int_in_range(0..=5)?),
         2 => Op::CreateAtomic,
@@ -97,13 +100,13 @@ fn op(u: &mut Unstructured) -> Result<Op> {
 pub fn decode_history(data: &[u8]) -> Option<History> {
     let mut u = Unstructured::new(data);
     let n = u.int_in_range(1..=6usize).ok()?;
-    let start = u.int_in_range(0..=11usize).ok()?;
+    let start = u.int_in_range(0..=ALL_KINDS.len() - 1).ok()?;
     let step = [1usize, 5, 7, 11][u.int_in_range(0..=3usize).ok()?];
     let mut storages = vec![];
     for i in 0..n {
-        let k = ALL_KINDS[(start + i * step) % 12];
+        let k = ALL_KINDS[(start + i * step) % ALL_KINDS.len()];
         if !storages.iter().any(|(x, _): &(Kind, u8)| *x == k) {
-            storages.push((k, u.int_in_range(0..=6u8).ok()?));
+            storages.push((k, u.int_in_range(0..=6u8).ok()? | if u.int_in_range(0..=3u8).ok()? == 0 { 0x80 } else { 0 }));
         }
     }
     let mut ops = vec![];
@@ -127,7 +130,10 @@ fn sop(u: &mut Unstructured) -> Result<SOp> {
     let take = |u: &mut Unstructured| -> Result<Option<u8>> {
         Ok(if u.arbitrary::<bool>()? { Some(u.int_in_range(0..=3u8)?) } else { None })
     };
-    Ok(match u.int_in_range(0..=27u8)? {
+    Ok(match u.int_in_range(0..=30u8)? {
+        28 => SOp::DrainFiltered { take: take(u)?, lend: b(u)?, filter: pat(u)? },
+        29 => SOp::RestrictProbe(s(u)?, s(u)?, p(u)?),
+        30 => SOp::CreateAtomic,
         0 | 1 | 2 => SOp::Insert(s(u)?, p(u)?),
         3 => SOp::Remove(s(u)?),
         4 => SOp::GenericRemove(s(u)?),
@@ -170,7 +176,7 @@ fn sop(u: &mut Unstructured) -> Result<SOp> {
 
 pub fn decode_seq(data: &[u8]) -> Option<SeqCase> {
     let mut u = Unstructured::new(data);
-    let kind = ALL_KINDS[u.int_in_range(0..=11usize).ok()?];
+    let kind = ALL_KINDS[u.int_in_range(0..=ALL_KINDS.len() - 1).ok()?];
     let pool = match u.int_in_range(0..=15u8).ok()? {
         0..=8 => Pool::Dense(u.int_in_range(1..=39u8).ok()?),
         9..=14 => {
